@@ -47,7 +47,7 @@ class VModel:
             n = self.nid(name)
             if d["kind"] == "var":
                 v = d["value"]
-                if v == "UNSUPPORTED":
+                if vprogs.unsupported(v):
                     self.send("v %d -" % n)
                 else:
                     self.send("v %d %d" % (n, self.tok(["val", v])))
